@@ -301,6 +301,14 @@ func Enumerate(tier string, seed int64) []*Schema {
 		big = append(big, fd(fmt.Sprintf("g%d", i), P("guid")))
 	}
 	add(&Schema{Name: "sbig", Records: []*Record{st("Sb", big...)}}, "prims", "wide")
+	// 0b. every primitive except date (the round-trip clauses are not stated for dates, see specgen rtOK)
+	var nodate []Field
+	for i, p := range Prims {
+		if p != "date" {
+			nodate = append(nodate, fd(fmt.Sprintf("f%d", i), P(p)))
+		}
+	}
+	add(&Schema{Name: "sprimsnd", Records: []*Record{st("Spn", append(nodate, fd("z", P("uint16")))...)}}, "prims")
 	// 1. every primitive as a struct field, followed by a sentinel (something must follow, cf. C04)
 	var allp []Field
 	for i, p := range Prims {
@@ -327,6 +335,12 @@ func Enumerate(tier string, seed int64) []*Schema {
 	// 4. strings and nested arrays
 	add(&Schema{Name: "snest", Records: []*Record{st("Sn", fd("a", A(A(P("string")))), fd("b", A(A(P("int32")))), fd("z", P("bool")))}}, "nested-arrays")
 	// 5. nested records: struct in struct, array of struct, struct of message
+	// records whose variable size comes only through a nested record (no string or array of their own)
+	add(&Schema{Name: "srec2", Records: []*Record{
+		st("Label", fd("text", P("string"))),
+		st("Tagged", fd("label", R("Label")), fd("weight", P("uint16"))),
+		st("Parcel", fd("tag", R("Tagged")), fd("count", P("uint32"))),
+		st("Shipment", fd("tags", A(R("Tagged"))), fd("id", P("uint32")))}}, "records", "struct")
 	add(&Schema{Name: "srec", Records: []*Record{
 		st("Inner", fd("x", P("int32")), fd("s", P("string"))),
 		st("Outer", fd("a", R("Inner")), fd("b", A(R("Inner"))), fd("z", P("uint8"))),
